@@ -11,6 +11,28 @@ class AbsSocket:
     def close(self):
         raise NotImplementedError("external")
 
+    def setsockopt(self, level, option, value):
+        raise NotImplementedError("external")
+
+    def setblocking(self, flag):
+        raise NotImplementedError("external")
+
+    def bind(self, address):
+        raise NotImplementedError("external")
+
+    def listen(self, backlog=0):
+        raise NotImplementedError("external")
+
+    def accept(self):
+        raise NotImplementedError("external")
+
+    def shutdown(self, how):
+        raise NotImplementedError("external")
+
+
+class AbsSettings:
+    """Connection settings as the TCP classes read them: address and port."""
+
 
 class AbsQueue:
     """queue.Queue seen from one consumer.  Ghost fields: g_pending (items waiting), g_served (items taken so far)."""
@@ -138,4 +160,25 @@ class AbsTokenList:
         raise NotImplementedError("external")
 
     def __len__(self):
+        raise NotImplementedError("external")
+
+
+class AbsGate:
+    """threading.Event seen from the thread that waits for it.  Ghost field g_set: the event is set."""
+
+    def wait(self, timeout=None):
+        raise NotImplementedError("external")
+
+    def set(self):
+        raise NotImplementedError("external")
+
+    def clear(self):
+        raise NotImplementedError("external")
+
+
+class AbsLinkEvent:
+    """An event of a connection object (on_connected, on_disconnecting, on_disconnected): calling it runs the registered
+    handlers (protocol layer and application).  Ghost fields: g_fired (calls so far), g_owner (the connection)."""
+
+    def __call__(self, data):
         raise NotImplementedError("external")
